@@ -15,7 +15,7 @@ RULE = ("pairs (s,t) of strings: exhaustive over small alphabets/lengths plus sa
         "distinct = distinct (s,t,drive mode)")
 ASSUMPTIONS = ["reference = textbook LCS DP (gv/oracle.py:lcs_len)",
                "a Match between unequal characters counts as one removed plus one inserted character"]
-MINIMUMS = {"quick": {"comparisons_reusing_a_source_node": 2000, "long_string_scripts_with_distance_over_255": 20, "scripts_judged": 60000, "string_edits": 50000, "renderings_judged": 2000},
+MINIMUMS = {"quick": {"scripts_read_after_a_partial_read": 1000, "comparisons_reusing_a_source_node": 2000, "long_string_scripts_with_distance_over_255": 20, "scripts_judged": 60000, "string_edits": 50000, "renderings_judged": 2000},
             "thorough": {"comparisons_reusing_a_source_node": 30000, "long_string_scripts_with_distance_over_255": 300, "scripts_judged": 500000, "string_edits": 400000}}
 
 
@@ -130,7 +130,7 @@ def gen_cases(spec, ctx):
             s, t = u * r.randint(1, 8), u * r.randint(0, 8) + rs(2)
         else:
             t = rs(40)
-        for mode in (0, 1, 2):
+        for mode in (0, 1, 2, 4):
             yield {"s": s, "t": t, "mode": mode}
 
 
@@ -144,12 +144,22 @@ def script_of(s, t, mode, ctx=None, source=None):
         e = d.edit
     else:
         e = a.edits(b)
-        if mode == 1:
+        if mode in (1, 4):
             while e.tighten_bounds():
                 pass
     if isinstance(e, graphtage.StringEdit):
         if ctx is not None:
             ctx.count("string_edits")
+        if mode == 4:
+            # a first reader of the script stops part-way (as a formatter looking for the first line break does); the next reader
+            # must still get the whole script
+            it = e.edit_distance.edits()
+            for _ in range(1 + (len(s) + len(t)) % 4):
+                if next(it, None) is None:
+                    break
+            del it
+            if ctx is not None:
+                ctx.count("scripts_read_after_a_partial_read")
         subs = list(e.edit_distance.edits())
         out = []
         for se in subs:
